@@ -15,6 +15,11 @@ SubSingle2 == [c \in Client |-> << [kind |-> "single", invs |-> <<"i1">>],
 RetryThenOk == [i \in Inv |-> <<"retry", "ok">>]
 SubOne == [c \in Client |-> << [kind |-> "single", invs |-> <<"i1">>] >>]
 
+\* C02: i1 is queued twice (client submits i1, i2; a duplicate message of i1 is in the queue)
+SubDupQ == [c \in Client |-> << [kind |-> "single", invs |-> <<"i1">>],
+                                [kind |-> "single", invs |-> <<"i2">>],
+                                [kind |-> "dup", invs |-> <<"i1">>] >>]
+
 Bounded == /\ \A i \in Inv : execs[i] <= 3 /\ Len(changes[i]) <= 9
            /\ Len(queue) <= 4
 =============================================================================
